@@ -70,7 +70,7 @@ ASSUMPTIONS = [
     "REAL defaults are the Python float of the decimal text (no rounding to binary32 demanded)",
     "StorageLocation / Factor / Unit / Description are compared too (read verbatim by the importer)",
 ]
-BUDGET = {"quick": 35, "thorough": 240}
+BUDGET = {"quick": 150, "thorough": 240}
 
 _FEATURES_NT = ("slimit", "odd", "rel", "compact", "record")
 _feature_counts = Counter()
